@@ -11,7 +11,7 @@ import verif as V
 import locks
 
 PROP = "C16"
-SPEC = ["Bng.Spec.C16Teardown", "Bng.Spec.C16TeardownMon", "Bng.Spec.C16Pppoe", "Bng.Spec.C16PppoeWhole", "Bng.Spec.C16SubMgr", "Bng.Spec.C16Paths"] + ["Bng.Spec.C02Locks", "Bng.Spec.C16Locks", "Bng.Spec.C10Locks"]
+SPEC = ["Bng.Spec.C16Teardown", "Bng.Spec.C16TeardownMon", "Bng.Spec.C16Pppoe", "Bng.Spec.C16PppoeWhole", "Bng.Spec.C16PppoePark", "Bng.Spec.C16SubMgr", "Bng.Spec.C16Paths"] + ["Bng.Spec.C02Locks", "Bng.Spec.C16Locks", "Bng.Spec.C10Locks"]
 COMPS = [
     V.Component("pppoesrv", monitors=["residue", "conservation", "obs-roundtrip", "held-free", "pool-entry", "swept-active", "kept-idle"]),
     V.Component("teardown", monitors=["double-stop", "double-cleanup", "residue", "missing-stop", "stop-unstarted", "stop-before-end", "not-terminated", "double-padt", "stop-without-start", "obs-roundtrip"]),
@@ -37,6 +37,7 @@ ASSUME = [
     "the idle-sweep leak of the PPPoE server is the recorded finding KF-pppoe-idle-leak",
     "translator harness/cmd/extractpaths (go/ast, no type information): the table lists what is syntactically reachable inside the package (depth 4, calls resolved only through the receiver or a package-unique name); guards, order and arguments of the calls are not in the table - those are the models' and the correspondence runs' business",
     "subscriber.Manager: TerminateSession calls are interleaved at the manager's unlock points (tbegin/tresume), and AssignAddress calls are held inside the allocator call between their two critical sections (abegin/aresume) with terminations, creates and other assignments in the window; the allocator stub parks the call BEFORE it picks the address (the manager cannot tell where inside the allocator call time passes). An AssignAddress that hands a LIVE session a second address lies outside Bng.SubMgr.Valid: the recorded finding KF-submgr-reassign-leak",
+    "PPPoE server: a PAP exchange can be held inside the RADIUS call (authpark/authresume: the RADIUS stub keeps the Access-Request unanswered) with idle sweeps and hours passing in the window - the only things that run then, the server has ONE receive goroutine; Bng.PppoePark, Spec.C16PppoePark.park_projects. The instants inside the window are the sweep's critical section as a whole (SessionManager.mu)",
     "concurrent terminations of pppoe.SessionTeardown: one call can be held after it claimed the session (tpark/tresume), other calls run in the window",
 ]
 ASSUME = ASSUME + [locks.ASSUME]
